@@ -1316,6 +1316,7 @@ func (ctx *RenderContext) getAttribute(obj interface{}, attr string) (interface{
 	} else {
 		// Not found in cache - release read lock and get write lock for update
 		attributeCache.RUnlock()
+		verifYield("attr.betweenLocks")
 		attributeCache.Lock()
 
 		// Double-check if another goroutine added it while we were waiting
